@@ -379,43 +379,60 @@ def check_kinds(ctx, syn, efile, ts, res, rule, prule, mir=None):
     res.floor("numbered variant templates (terminal kinds, nonterminal kinds, states, rule kinds)", n_kind, 4)
     # (2) rows ascend over all states; each cell is looked up under its own row state and column symbol
     n_cell = 0
-    for (p, impl, fn) in syn.all_fns(path=efile):
+    all_f = list(syn.all_fns(path=efile))
+
+    def closure_and_source(fn_, call_):
+        """(parameter text of the innermost closure of fn_ containing call_, the chain it is mapped over) or (None, None)"""
+        encl_ = [c for c in nodes(fn_["body"], "Closure") if any(x is call_ for x in nodes(c["body"], "MethodCall"))]
+        if not encl_:
+            return None, None
+        cp_ = unparse(encl_[-1]["inputs"][0]).replace(" ", "") if encl_[-1]["inputs"] else None
+        src_ = None
+        for mm in nodes(fn_["body"], "MethodCall"):
+            if mm["method"] == "map" and mm["args"] and mm["args"][0] is encl_[-1]:
+                root, chain = method_chain(mm["recv"])
+                src_ = (unparse(root) + "".join("." + c[1] for c in chain)).replace(" ", "")
+        return cp_, src_
+
+    def state_params(fn_):
+        return [i["pat"]["name"] for i in fn_["inputs"] if "pat" in i and i["pat"].get("k") == "PIdent" and "StateIndex" in (i.get("ty") or "")]
+
+    for (p, impl, fn) in all_f:
         for m in nodes(fn["body"], "MethodCall"):
-            if m["method"] in ("action", "goto") and unparse(m["recv"]).replace(" ", "") == "self.table" and len(m["args"]) == 2:
-                n_cell += 1
-                a0, a1 = [unparse(a).replace(" ", "") for a in m["args"]]
-                sp = [i["pat"]["name"] for i in fn["inputs"] if "pat" in i and i["pat"].get("k") == "PIdent" and "StateIndex" in (i.get("ty") or "")]
-                # the enclosing closure's parameter
-                encl = [c for c in nodes(fn["body"], "Closure") if any(x is m for x in nodes(c["body"], "MethodCall"))]
-                cp = unparse(encl[-1]["inputs"][0]).replace(" ", "") if encl and encl[-1]["inputs"] else None
-                # the chain the closure is mapped over
-                src = None
-                for mm in nodes(fn["body"], "MethodCall"):
-                    if mm["method"] == "map" and encl and mm["args"] and mm["args"][0] is encl[-1]:
-                        root, chain = method_chain(mm["recv"])
-                        src = (unparse(root) + "." + ".".join(c[1] for c in chain)).replace(" ", "")
-                key = "cell|%s" % fn["name"]
-                want_src = {"action": r"^self\.table\.terminals\.iter\.map\.chain$", "goto": r"^self\.table\.nonterminals\.iter$"}[m["method"]]
-                ok = bool(sp) and a0 == sp[0] and a1 == cp and src is not None and re.match(want_src, src) is not None
-                res.inst(rule, key, "%s:%d" % (efile, m["line"]), True, "%s(%s, %s) over %s" % (m["method"], a0, a1, src))
-                if not ok:
-                    res.violate(rule, key, "%s:%d" % (efile, m["line"]), "a cell must be looked up under the row's own state (`%s`) and the column's own symbol (`%s`), columns in list order; found `%s(%s, %s)` over `%s`" % (sp[0] if sp else "?", cp, m["method"], a0, a1, src))
-                # callers: rows over 0..state_count ascending with StateIndex(i)
-                for (p2, impl2, fn2) in syn.all_fns(path=efile):
-                    for c2 in nodes(fn2["body"], "MethodCall"):
-                        if c2["method"] == fn["name"] and ident_of(c2["recv"]) == "self":
-                            encl2 = [c for c in nodes(fn2["body"], "Closure") if any(x is c2 for x in nodes(c["body"], "MethodCall"))]
-                            ip = unparse(encl2[-1]["inputs"][0]).replace(" ", "") if encl2 else None
-                            arg = unparse(c2["args"][0]).replace(" ", "") if c2["args"] else None
-                            rows = None
-                            for mm in nodes(fn2["body"], "MethodCall"):
-                                if mm["method"] == "map" and encl2 and mm["args"] and mm["args"][0] is encl2[-1]:
-                                    root, chain = method_chain(mm["recv"])
-                                    rows = (unparse(root) + "".join("." + c[1] for c in chain)).replace(" ", "")
-                            okr = arg == "StateIndex(%s)" % ip and rows is not None and re.match(r"^\(?0\.\.self\.table\.state_count\(\)\)?$", rows) is not None
-                            res.inst(rule, "rows|%s" % fn2["name"], "%s:%d" % (efile, c2["line"]), True, "%s(%s) over %s" % (fn["name"], arg, rows))
-                            if not okr:
-                                res.violate(rule, "rows|%s" % fn2["name"], "%s:%d" % (efile, c2["line"]), "row i must be the row of state i for i ascending over all states; found `%s(%s)` over `%s`" % (fn["name"], arg, rows))
+            if not (m["method"] in ("action", "goto") and unparse(m["recv"]).replace(" ", "") == "self.table" and len(m["args"]) == 2):
+                continue
+            n_cell += 1
+            a0, a1 = [unparse(a).replace(" ", "") for a in m["args"]]
+            sp = state_params(fn)
+            cp, src = closure_and_source(fn, m)
+            row_fn = fn
+            if cp is None:
+                # the look-up sits in an item function `f(state, symbol)`; the row function maps it over the list
+                others = [i["pat"]["name"] for i in fn["inputs"] if "pat" in i and i["pat"].get("k") == "PIdent" and i["pat"]["name"] not in sp]
+                callers = [(p2, fn2, c2) for (p2, impl2, fn2) in all_f for c2 in nodes(fn2["body"], "MethodCall") if c2["method"] == fn["name"] and ident_of(c2["recv"]) == "self" and fn2 is not fn]
+                if bool(sp) and a0 == sp[0] and len(others) == 1 and a1 == others[0] and len(callers) == 1 and len(callers[0][2]["args"]) == 2:
+                    p2, fn2, c2 = callers[0]
+                    cp2, src2 = closure_and_source(fn2, c2)
+                    b0, b1 = [unparse(a).replace(" ", "") for a in c2["args"]]
+                    sp2 = state_params(fn2)
+                    if cp2 is not None and bool(sp2) and b0 == sp2[0] and b1 == cp2:
+                        cp, src, row_fn = a1, src2, fn2  # (a1 is the item function's own symbol parameter, fed with the closure parameter)
+            key = "cell|%s" % fn["name"]
+            want_src = {"action": r"^self\.table\.terminals\.iter\.map\.chain$", "goto": r"^self\.table\.nonterminals\.iter$"}[m["method"]]
+            ok = bool(sp) and a0 == sp[0] and a1 == cp and src is not None and re.match(want_src, src) is not None
+            res.inst(rule, key, "%s:%d" % (efile, m["line"]), True, "%s(%s, %s) over %s" % (m["method"], a0, a1, src))
+            if not ok:
+                res.violate(rule, key, "%s:%d" % (efile, m["line"]), "a cell must be looked up under the row's own state (`%s`) and the column's own symbol (`%s`), columns in list order; found `%s(%s, %s)` over `%s`" % (sp[0] if sp else "?", cp, m["method"], a0, a1, src))
+            # callers of the row function: rows over 0..state_count ascending with StateIndex(i)
+            for (p2, impl2, fn2) in all_f:
+                for c2 in nodes(fn2["body"], "MethodCall"):
+                    if c2["method"] == row_fn["name"] and ident_of(c2["recv"]) == "self" and fn2 is not row_fn:
+                        ip, rows = closure_and_source(fn2, c2)
+                        arg = unparse(c2["args"][0]).replace(" ", "") if c2["args"] else None
+                        okr = arg == "StateIndex(%s)" % ip and rows is not None and re.match(r"^\(?0\.\.self\.table\.state_count\(\)\)?$", rows) is not None
+                        res.inst(rule, "rows|%s" % fn2["name"], "%s:%d" % (efile, c2["line"]), True, "%s(%s) over %s" % (row_fn["name"], arg, rows))
+                        if not okr:
+                            res.violate(rule, "rows|%s" % fn2["name"], "%s:%d" % (efile, c2["line"]), "row i must be the row of state i for i ascending over all states; found `%s(%s)` over `%s`" % (row_fn["name"], arg, rows))
     res.floor("table cell look-ups in the emitter", n_cell, 2)
     # (3) the initial stack holds the table's start state
     n_start = 0
